@@ -65,6 +65,8 @@ Inductive leaf :=
 | LInteg (v : nat)
 | LIntegA (v : nat)     (* Integral(v(t - tau), (tau, 0, oo)): the first branch of LaplaceTransformer.integral *)
 | LConv (v h : nat)
+| LConvE (a : K) (v : nat) (expfirst : bool)   (* Integral(exp(a tau) v(t - tau), (tau, 0, t | oo)): convolution of the classical
+                                                 signal e^{a t} (t >= 0) with a named function; expfirst = the exp is args[0] of the Mul *)
 | LPoly (p : list K).        (* a polynomial factor  p0 + p1 t + p2 t^2 + ...  (an Add inside a Mul) *)
 Definition mono := (K * list leaf)%type.
 Definition tx := list mono.
@@ -101,7 +103,7 @@ Definition leaf_nf (l : leaf) : option nf :=
   | LRamp a b => ramp_nf a b
   | LRstep a b => oapp (ramp_nf a b) (oscale (- (1)) (ramp_nf a (b - 1)))
   | LPoly p => Some [NReg None (poly_r O p)]
-  | LUndef _ _ _ | LDeriv _ _ | LInteg _ | LIntegA _ | LConv _ _ => None
+  | LUndef _ _ _ | LDeriv _ _ | LInteg _ | LIntegA _ | LConv _ _ | LConvE _ _ _ => None
   end.
 Fixpoint prod_nf (fs : list leaf) : option nf :=
   match fs with
@@ -114,7 +116,7 @@ Definition mono_nf (m : mono) : option nf := oscale (fst m) (prod_nf (snd m)).
 (* ------------------------------------------------------------------ denotation *)
 Definition is_ut (l : leaf) : bool := match l with LU a b => feqb a 1 && feqb b 0 | _ => false end.
 Definition is_named (l : leaf) : bool :=
-  match l with LUndef _ _ _ | LDeriv _ _ | LInteg _ | LIntegA _ | LConv _ _ => true | _ => false end.
+  match l with LUndef _ _ _ | LDeriv _ _ | LInteg _ | LIntegA _ | LConv _ _ | LConvE _ _ _ => true | _ => false end.
 Definition remove_heaviside (fs : list leaf) : list leaf := filter (fun l => negb (is_ut l)) fs.
 Definition undef_sig (v : nat) (a b : K) : option signal :=
   if isr a && isr b && pos a && (neg b || feqb b 0) then Some (SDelay (- b / a) (STScale a (SFn v))) else None.
@@ -133,6 +135,7 @@ Definition den_named (fs : list leaf) : option signal :=
   | [LInteg v] => Some (SInteg (SFn v))
   | [LIntegA v] => Some (SInteg (SFn v))     (* int_0^oo v(t - tau) dtau = int_{-oo}^t v = int_0^t v for the causal named functions *)
   | [LConv v h] => Some (SConv (SFn v) (SFn h))
+  | [LConvE a v _] => Some (SConv (SReg 1 O a) (SFn v))
   | [LUndef v a' b'; LDelta O a b] => sift_sig v a' b' a b
   | [LDelta O a b; LUndef v a' b'] => sift_sig v a' b' a b
   | _ => None
@@ -189,7 +192,7 @@ Definition function_model (l : leaf) : option (K -> K) :=
   | LRstep a b => if feqb b 0 then Some (f_rstep F a) else None
   | _ => None
   end.
-Definition is_function (l : leaf) : bool := match l with LPowT _ | LDeriv _ _ | LInteg _ | LIntegA _ | LConv _ _ | LPoly _ => false | _ => true end.
+Definition is_function (l : leaf) : bool := match l with LPowT _ | LDeriv _ _ | LInteg _ | LIntegA _ | LConv _ _ | LConvE _ _ _ | LPoly _ => false | _ => true end.
 
 (* ---- AppliedUndef branch ------------------------------------------------------------------- *)
 Definition sift_shape (fs : list leaf) : option (nat * K * K * K * K) :=
@@ -300,13 +303,16 @@ Definition early (c : K) (fs : list leaf) : option (K -> K) :=
   | [LExp a b] => if feqb b 0 then Some (f_exp F c a) else None
   | _ => None
   end.
-Definition is_integral (l : leaf) : bool := match l with LInteg _ | LIntegA _ | LConv _ _ => true | _ => false end.
+Definition is_integral (l : leaf) : bool := match l with LInteg _ | LIntegA _ | LConv _ _ | LConvE _ _ _ => true | _ => false end.
 Definition integral_model (c : K) (fs : list leaf) : option (K -> K) * list ev :=
   match fs with
   | [LInteg v] => (Some (fun s => c * f_integ F 1 (f_func F v 1 0 s) s), [EvIntegral; EvFunc])
   | [LIntegA v] => (Some (fun s => c * f_integ F 1 (f_func F v 1 0 s) s), [EvIntegral; EvTerm; EvFunc])   (* goes through self.term(v(t)) *)
   | [LConv v h] => (Some (fun s => c * f_conv F 1 (f_func F v 1 0 s) (f_func F h 1 0 s)),
                     [EvIntegral; EvTerm; EvFunc; EvTerm; EvFunc])
+  (* F1 is computed before F2, in the order of the args of the Mul; term(exp(a tau), tau, s) returns at `const / (s - arg)` *)
+  | [LConvE a v true] => (Some (fun s => c * f_conv F 1 (f_exp F 1 a s) (f_func F v 1 0 s)), [EvIntegral; EvTerm; EvTerm; EvFunc])
+  | [LConvE a v false] => (Some (fun s => c * f_conv F 1 (f_func F v 1 0 s) (f_exp F 1 a s)), [EvIntegral; EvTerm; EvFunc; EvTerm])
   | _ => (None, [EvIntegral; EvError])
   end.
 Definition late (zic : bool) (c : K) (fs : list leaf) : option (K -> K) * list ev :=
@@ -810,7 +816,12 @@ Fixpoint den (e : tx) : option signal :=
   | [] => Some SZero
   | m :: e' => match den_mono m, den e' with Some x, Some y => Some (SAdd x y) | _, _ => None end
   end.
-Definition dom1 (fs : list leaf) (s : K) : Prop := s <> 0 /\ forall N, prod_nf fs = Some N -> nf_dom s N.
+(* the poles to stay away from: those of the classical normal form; for the convolution with e^{a t} the pole a *)
+Definition dom_nf (fs : list leaf) : option nf :=
+  match fs with [LConvE a _ _] => Some [NReg None [(1, O, a)]] | _ => prod_nf fs end.
+Lemma dom_nf_classical fs : existsb is_named fs = false -> dom_nf fs = prod_nf fs.
+Proof. destruct fs as [|l [|l2 fs]]; try reflexivity; destruct l; try reflexivity; discriminate. Qed.
+Definition dom1 (fs : list leaf) (s : K) : Prop := s <> 0 /\ forall N, dom_nf fs = Some N -> nf_dom s N.
 Fixpoint dom_list (ms : list mono) (s : K) : Prop :=
   match ms with [] => True | (c, fs) :: ms' => dom1 fs s /\ dom_list ms' s end.
 Definition dom_mono (m : mono) (s : K) : Prop :=
@@ -832,7 +843,7 @@ Proof. intros Hn HN HX x Hd. unfold den1 in Hd. rewrite Hn in Hd. unfold mono_nf
   apply LPair_of_val.
   - apply (nf_ok_nscale K ex isr neg). exact (prod_nf_ok fs N HN).
   - intros s Hs. split.
-    + apply (nf_dom_nscale K ex isr neg). destruct Hs as [_ Hs]. exact (Hs N HN).
+    + apply (nf_dom_nscale K ex isr neg). destruct Hs as [_ Hs]. exact (Hs N (eq_trans (dom_nf_classical fs Hn) HN)).
     + rewrite nf_val_nscale. apply HX. exact Hs. Qed.
 
 Lemma early_sound Ic' c fs X x : early c fs = Some X -> den1 c fs = Some x -> LPair K ex isr neg Fn Ic' x (dom1 fs) X.
@@ -973,7 +984,7 @@ Qed.
 Lemma integral_sound zic c fs X evs x : integral_model c fs = (Some X, evs) -> den1 c fs = Some x ->
   LPair K ex isr neg Fn (Icz zic) x (dom1 fs) X.
 Proof. destruct HF. unfold integral_model. destruct fs as [|l0 fs]; [discriminate|].
-  destruct l0; try discriminate; (destruct fs; [|discriminate]); intros H; inversion H; subst X; clear H;
+  destruct l0; try discriminate; try destruct expfirst; (destruct fs; [|discriminate]); intros H; inversion H; subst X; clear H;
     unfold den1; cbn [existsb is_named orb den_named]; intros Hd; inversion Hd; subst x; clear Hd.
   - apply (LP_weaken K ex isr neg Fn (Icz zic) _ (fun s => True /\ s <> 0) _ (fun s => c * (Fn v s / s))).
     + intros s [Hs _]. split; [split; [exact I | exact Hs]|].
@@ -992,6 +1003,24 @@ Proof. destruct HF. unfold integral_model. destruct fs as [|l0 fs]; [discriminat
       rewrite (ex_eq (s * 0 / 1) 0) by (field; apply one_nz). rewrite ex_0.
       replace (s / 1) with s by (field; apply one_nz). field; nzc.
     + apply LP_scale. apply (LP_conv K ex isr neg Fn (Icz zic) (SFn v) (SFn h) (fun _ => True) (fun _ => True) (Fn v) (Fn h)); apply LP_fn.
+  - apply (LP_weaken K ex isr neg Fn (Icz zic) _ (fun s => s - a <> 0 /\ True) _ (fun s => c * (1 / fpow (s - a) 1 * Fn v s))).
+    + intros s [_ Hd]. pose proof (Hd _ eq_refl) as [Hp _].
+      assert (Hn : s - a <> 0) by (apply (Hp 1 O a); left; reflexivity).
+      split; [split; [exact Hn | exact I]|].
+      rewrite conv_ok0, exp_ok0 by exact Hn. rewrite func_ok0 by exact pos_1. unfold spec_func.
+      rewrite (ex_eq (s * 0 / 1) 0) by (field; apply one_nz). rewrite ex_0.
+      replace (s / 1) with s by (field; apply one_nz). cbn [fpow]. field; nzc.
+    + apply LP_scale. apply (LP_conv K ex isr neg Fn (Icz zic) (SReg 1 O a) (SFn v) (fun s => s - a <> 0) (fun _ => True)
+                               (fun s => 1 / fpow (s - a) 1) (Fn v)); [apply LP_reg | apply LP_fn].
+  - apply (LP_weaken K ex isr neg Fn (Icz zic) _ (fun s => s - a <> 0 /\ True) _ (fun s => c * (1 / fpow (s - a) 1 * Fn v s))).
+    + intros s [_ Hd]. pose proof (Hd _ eq_refl) as [Hp _].
+      assert (Hn : s - a <> 0) by (apply (Hp 1 O a); left; reflexivity).
+      split; [split; [exact Hn | exact I]|].
+      rewrite conv_ok0, exp_ok0 by exact Hn. rewrite func_ok0 by exact pos_1. unfold spec_func.
+      rewrite (ex_eq (s * 0 / 1) 0) by (field; apply one_nz). rewrite ex_0.
+      replace (s / 1) with s by (field; apply one_nz). cbn [fpow]. field; nzc.
+    + apply LP_scale. apply (LP_conv K ex isr neg Fn (Icz zic) (SReg 1 O a) (SFn v) (fun s => s - a <> 0) (fun _ => True)
+                               (fun s => 1 / fpow (s - a) 1) (Fn v)); [apply LP_reg | apply LP_fn].
 Qed.
 
 (* ---- function(), the oracle, and the whole of term ----------------------------------------------------------- *)
@@ -1022,7 +1051,7 @@ Lemma oracle_sound Ic' c fs b X evs x : existsb is_named fs = false ->
 Proof. intros Hn. unfold oracle_branch. destruct (prod_nf fs) as [N|] eqn:EN; [|discriminate].
   destruct (orc N) as [X0|] eqn:EO; cbn [vscale]; [|discriminate]. intros H; inversion H; subst X; clear H.
   apply (classical_sound Ic' c fs N); [exact Hn | exact EN|].
-  intros s [_ Hd]. rewrite (orc_ok N X0 EO s (Hd N EN)). reflexivity. Qed.
+  intros s [_ Hd]. rewrite (orc_ok N X0 EO s (Hd N (eq_trans (dom_nf_classical fs Hn) EN))). reflexivity. Qed.
 
 Lemma late_sound zic c fs X evs x : late zic c fs = (Some X, evs) -> den1 c fs = Some x ->
   LPair K ex isr neg Fn (Icz zic) x (dom1 fs) X.
@@ -1056,7 +1085,7 @@ Proof. unfold term1. destruct (early c fs) as [X0|] eqn:Ee.
         [| exfalso; unfold den1, mono_nf in Hd; rewrite Hnn in Hd; cbn [fst snd] in Hd; rewrite HN in Hd; discriminate].
       destruct (sincos_sound fs X0 Es N HN) as [iscos [hasu [al [be [w [p [zeta [-> HV]]]]]]]].
       apply (classical_sound _ c fs N); [exact Hnn | exact HN | | exact Hd].
-      intros s [_ Hdm]. destruct (HV s (Hdm N HN)) as [[P1 P2] V]. rewrite V. destruct HF.
+      intros s [_ Hdm]. destruct (HV s (Hdm N (eq_trans (dom_nf_classical fs Hnn) HN))) as [[P1 P2] V]. rewrite V. destruct HF.
       rewrite sincos_ok0 by (rewrite sq_fact; apply mul_nz; assumption).
       rewrite (spec_core iscos hasu al be w p zeta s P1 P2). reflexivity.
     + destruct (late zic c fs) as [r ev0] eqn:El. intros H; inversion H; subst r; clear H.
@@ -1155,7 +1184,7 @@ Proof. destruct HF. unfold term1.
     { unfold early in *. destruct fs as [|l fs]; [discriminate|]. destruct l; try reflexivity. destruct fs; [|reflexivity].
       destruct (feqb b 0); [discriminate | reflexivity]. }
     rewrite Ee'. destruct (existsb is_integral fs).
-    + unfold integral_model. destruct fs as [|l [|l2 fs]]; try discriminate; destruct l; try discriminate;
+    + unfold integral_model. destruct fs as [|l [|l2 fs]]; try discriminate; destruct l; try discriminate; try destruct expfirst;
         intros H; inversion H; subst; (eexists; split; [cbn [vscale]; reflexivity | intros; cbn beta; ring]).
     + destruct (existsb is_trig fs).
       * destruct (sincos_model fs) as [X0|].
@@ -1218,4 +1247,4 @@ End LModel.
 
 Arguments LPowT {K}. Arguments LExp {K}. Arguments LSin {K}. Arguments LCos {K}. Arguments LSinh {K}. Arguments LCosh {K}.
 Arguments LU {K}. Arguments LDelta {K}. Arguments LRect {K}. Arguments LTri {K}. Arguments LRamp {K}. Arguments LRstep {K}.
-Arguments LUndef {K}. Arguments LDeriv {K}. Arguments LInteg {K}. Arguments LIntegA {K}. Arguments LConv {K}. Arguments LPoly {K}.
+Arguments LUndef {K}. Arguments LDeriv {K}. Arguments LInteg {K}. Arguments LIntegA {K}. Arguments LConv {K}. Arguments LConvE {K}. Arguments LPoly {K}.
